@@ -40,7 +40,28 @@ def _p5_cases(draw):
     T = draw(gen.types(P5CFG))
     vals = draw(gen.values(T, P5CFG))
     fn = draw(st.sampled_from(["flatten0", "flatten0", "flatten0_union", "flatten1", "flatten_none", "ravel", "num1", "local_index1", "unflatten", "unflatten_axis1",
-                               "unflatten_axis1"]))
+                               "unflatten_axis1", "unflatten_split", "unflatten_split"]))
+    if fn == "unflatten_split":
+        # unflatten(y, counts, axis=1) applied directly to a generated encoding of lists (possibly missing), the counts cutting every list into
+        # pieces of at least one element: the pieces, in order, are the expected value
+        X = draw(st.sampled_from([["prim", "int64"], ["prim", "float64"]]))
+        T2 = ["list", X]
+        if draw(st.integers(0, 2)) > 0:
+            T2 = ["option", T2]
+        vals2 = draw(gen.values(T2, P5CFG))
+        counts, pieces = [], []
+        for y in vals2:
+            if y is None:
+                pieces.append(None)
+                continue
+            out, i = [], 0
+            while i < len(y):
+                k = draw(st.integers(1, len(y) - i))
+                out.append(y[i:i + k])
+                counts.append(k)
+                i += k
+            pieces.append(out)
+        return {"part": "P", "fn": fn, "desc": draw(gen.encode(T2, vals2, P5CFG)), "counts": counts, "pieces": pieces}
     if fn == "unflatten_axis1":
         # unflatten(flatten(x, axis=2), the lengths of the lists at axis 2, axis=1) == x for lists of lists of lists without missing or empty
         # lists at the innermost split level (added after the seeded change C05-f - unflatten at axis > 0 below a reordering option node -
@@ -114,7 +135,10 @@ def _p5_run(case):
     T, V = M.decode(case["desc"])
     fn = case["fn"]
     islist = M.strip_option(T)[0] in ("list", "regular")
-    if fn == "unflatten_axis1":
+    if fn == "unflatten_split":
+        expected = case["pieces"]
+        kind, res = P.outcome(lambda: A.unflatten(a, np.array(case["counts"], dtype=np.int64), axis=1))
+    elif fn == "unflatten_axis1":
         expected = V
         counts = np.array([len(z) for y in V if y is not None for z in y], dtype=np.int64)
         kind, res = P.outcome(lambda: A.unflatten(A.flatten(a, axis=2), counts, axis=1))
